@@ -64,6 +64,7 @@ RULES = {
     "DELGUARD": simplify.rule_delguard,
     "CFGMOD": provenance.rule_cfgmod,
     "EQVGATE": provenance.rule_eqvgate,
+    "CFGSHAPE": provenance.rule_cfgshape,
     "UFOWN": provenance.rule_ufown,
     "EQVSHAPE": provenance.rule_eqvshape,
     "NOPROV": provenance.rule_noprov,
